@@ -255,6 +255,18 @@ func (n *cnNet) electionInput(ctx context.Context, t mkvs.ImmutableKeyValueTree)
 	for k, v := range params.Thresholds {
 		thr[k.String()] = qi(&v)
 	}
+	// VRF backend: the proofs of the previous epoch and whether its alpha allows committee elections
+	vrfOn, canElect := false, true
+	prevPi := map[signature.PublicKey]bool{}
+	if bp, perr := beaconState.NewImmutableState(t).ConsensusParameters(ctx); perr == nil && bp.Backend == beacon.BackendVRF {
+		vrfOn, canElect = true, false
+		if vs, verr := beaconState.NewImmutableState(t).VRFState(ctx); verr == nil && vs != nil && vs.PrevState != nil {
+			canElect = vs.PrevState.CanElectCommittees
+			for id := range vs.PrevState.Pi {
+				prevPi[id] = true
+			}
+		}
+	}
 	var nl []map[string]any
 	ents := map[string]bool{}
 	for _, nd := range nodes {
@@ -277,6 +289,7 @@ func (n *cnNet) electionInput(ctx context.Context, t mkvs.ImmutableKeyValueTree)
 			"id": n.keyName(nd.ID.String()), "ent": ent, "validator": nd.HasRoles(node.RoleValidator), "roles": int64(nd.Roles),
 			"exp": int64(nd.Expiration), "frozen": frozen, "cons": fmt.Sprintf("%x", nd.Consensus.ID[:]),
 			"compute": nd.HasRoles(node.RoleComputeWorker), "rts": rts, "susp": susp,
+			"pi": prevPi[nd.ID], "elig": err == nil && status != nil && status.IsEligibleForElection(epochOf(ctx, t)),
 		})
 	}
 	// the runtimes the committee election iterates over (registered, not suspended)
@@ -335,7 +348,7 @@ func (n *cnNet) electionInput(ctx context.Context, t mkvs.ImmutableKeyValueTree)
 	if nl == nil {
 		nl = []map[string]any{}
 	}
-	return map[string]any{"nodes": nl, "entities": el, "thresholds": thr, "runtimes": rtl}, nil
+	return map[string]any{"nodes": nl, "entities": el, "thresholds": thr, "runtimes": rtl, "vrf": vrfOn, "can_elect": canElect}, nil
 }
 
 // runtimeName maps a runtime ID back to the scenario's name (R0, R1), or a short hex string.
